@@ -33,6 +33,10 @@ def run(rec, cfg):
     MR.CHECKS.update({"structure"})
     MR.attach_apply()
     rng = cfg.rng("c07")
+    from ..workloads import interrupted as _INT
+
+    if cfg.shard == 6 % cfg.nshards:
+        _INT.balanced_move_cases(rec, "C07")      # the rule that clones before it rewrites, cut short: source, snapshots and later moves
     rules = RC.with_flippers(MR.rule_instances())
     n = cfg.scale(200, 25000)
     if cfg.shard == 0:
@@ -142,6 +146,11 @@ def run(rec, cfg):
 
 
 def replay(rec, cfg, w):
+    if "failpoint" in w:
+        from ..workloads import interrupted as _INT
+
+        _INT.balanced_move_cases(rec, "C07")      # deterministic: the whole family of cases is run again
+        return
     MR.CHECKS.update({"structure"})
     MR.attach_apply()
     if "tree" in w and "rule" in w:
